@@ -323,6 +323,51 @@ impl Engine for LawsEngine {
                 }
             }
         }
+        // the comparison cards of a script give the same answers as the traits
+        {
+            let lit = |s: &VSpec| -> Option<cao_lang::compiler::Card> {
+                Some(match s {
+                    VSpec::Nil => crate::gen::nil(),
+                    VSpec::Int(i) => crate::gen::int(*i),
+                    VSpec::Real(b) if f64::from_bits(*b).is_finite() => crate::gen::real(f64::from_bits(*b)),
+                    VSpec::Str(x) => crate::gen::strc(x.as_str()),
+                    _ => return None,
+                })
+            };
+            let mut cards = vec![crate::gen::set("_", crate::gen::nil())];
+            let mut expect: Vec<(usize, usize)> = Vec::new();
+            for (i, j, _) in case.triples.iter().copied().take(60) {
+                if let (Some(a), Some(b)) = (lit(&case.pool[i]), lit(&case.pool[j])) {
+                    use crate::gen::{bin, discard, native};
+                    cards.push(discard(native("log3", vec![bin("less", a.clone(), b.clone()), bin("le", a.clone(), b.clone()), bin("eq", a.clone(), b.clone())])));
+                    cards.push(discard(native("log1", vec![bin("ne", a, b)])));
+                    expect.push((i, j));
+                }
+            }
+            if !expect.is_empty() {
+                let mut m = cao_lang::compiler::Module::default();
+                m.functions.push(("main".into(), cao_lang::compiler::Function { arguments: vec![], cards }));
+                if let Ok(program) = cao_lang::compiler::compile(m, cao_lang::compiler::CompileOptions::new()) {
+                    let mut vm2 = new_vm(&cfg, &[]);
+                    if vm2.run(&program).is_ok() {
+                        let log = &vm2.auxiliary_data.log;
+                        for (n, (i, j)) in expect.iter().enumerate() {
+                            let (a, b) = (vals[*i], vals[*j]);
+                            let want = [(a < b) as i64, (a <= b) as i64, (a == b) as i64];
+                            let got: Vec<i64> = log.get(2 * n).map(|(_, args)| args.iter().map(|d| if let crate::dval::DVal::Int(x) = d { *x } else { -1 }).collect()).unwrap_or_default();
+                            let got_ne = log.get(2 * n + 1).and_then(|(_, args)| args.first().cloned());
+                            if got != want || got_ne != Some(crate::dval::DVal::Int((a != b) as i64)) {
+                                return viol(
+                                    "cards-vs-traits",
+                                    format!("{} and {}: the Less / LessOrEq / Equals cards give {got:?} and NotEquals {got_ne:?}; the value traits give {want:?} and {}", show(&case.pool[*i]), show(&case.pool[*j]), (a != b) as i64),
+                                );
+                            }
+                            obs.inc("card_comparisons_checked");
+                        }
+                    }
+                }
+            }
+        }
         for (i, j, k) in case.triples.iter().copied() {
             let (a, b, c) = (vals[i], vals[j], vals[k]);
             if judged(&case.pool[i]) && judged(&case.pool[j]) && judged(&case.pool[k]) {
